@@ -323,7 +323,7 @@ def scenarios(ctx):
                 for kindp, v in [("ticks", 6), ("at", 0.4), ("at", 2.0)]:
                     out.append(dict(kind=kind, shape="plain", connect=cs, action=action, point=[kindp, v], cb="ok", status="ok", drain=None))
         # a backlog in the queue when the callback closes, raises or is slow
-        for cbm in ("close", ["ok", "close"], ["ok", "ok", "close"], ["ok", "raise", "close"], "slow", ["slow", "close"]):
+        for cbm in ("close", ["ok", "close"], ["ok", "ok", "close"], ["ok", "raise", "close"], "slow", ["slow", "close"], ["slow", "ok", "ok", "ok", "ok", "ok", "ok"]):
             for action in ("none", "eof"):
                 for kindp, v in [("ticks", 6), ("at", 0.4)]:
                     out.append(dict(kind=kind, shape="burst", connect=["ok"], action=action, point=[kindp, v], cb=cbm, status="ok", drain=None))
@@ -677,6 +677,14 @@ def monitor(sim, sc):
         run = run + 1 if a == b else 1
         if run >= 3:
             out.append(("C13", "no-yield", "three or more frames were received and processed within one event-loop step: buffered input is processed without giving other tasks a turn"))
+            break
+    # … and neither is a backlog in the queue delivered within one step (callbacks that do not suspend)
+    its = getattr(sim, "cb_loop_iters", [])
+    run = 1
+    for a, b in zip(its, its[1:]):
+        run = run + 1 if a == b else 1
+        if run >= 3:
+            out.append(("C13", "no-yield", "three or more queued messages were delivered to the callback within one event-loop step: a backlog is delivered without giving other tasks a turn"))
             break
     st = sim.status_log
     for a, b in zip(st, st[1:]):
